@@ -221,6 +221,39 @@ def verb_of(b):
     return verb
 
 
+def _unfiltered_source(desc):
+    """iterating `list[<anything> over X]` (a comprehension / collecting helper without a filter) visits one item per item of
+    X: as a statement about which rows exist it is `X`"""
+    while desc.startswith(('list[', 'gen[')) and desc.endswith(']'):
+        inner = desc[desc.index('[') + 1:-1]
+        # split at the last top-level ' over '
+        depth, pos = 0, -1
+        for i, ch in enumerate(inner):
+            if ch in '[(':
+                depth += 1
+            elif ch in '])':
+                depth -= 1
+            elif depth == 0 and inner.startswith(' over ', i):
+                pos = i
+        if pos < 0:
+            break
+        tail = inner[pos + 6:]
+        d2, has_if, multi = 0, False, False
+        for i, ch in enumerate(tail):
+            if ch in '[(':
+                d2 += 1
+            elif ch in '])':
+                d2 -= 1
+            elif d2 == 0 and tail.startswith(' if ', i):
+                has_if = True
+            elif d2 == 0 and tail.startswith(' , ', i):
+                multi = True
+        if has_if or multi:
+            break
+        desc = tail
+    return desc
+
+
 def row_guards(d, b):
     """descriptors of the tests that dominate the creation of a row: enclosing ifs, preceding early exits in the
     enclosing loops, comprehension filters - plus the iterables the row ranges over."""
@@ -240,7 +273,7 @@ def row_guards(d, b):
         out.append(c)
     its = []
     for tgt, it in b.row.gens:
-        o = 'over ' + d.describe(it, it, 1, b.row)
+        o = 'over ' + _unfiltered_source(d.describe(it, it, 1, b.row))
         # iterables that say nothing about the document (batches of a local list, the table/statement pairs of a helper loop)
         # are implementation detail
         if not re.search(r'[A-Z][a-z]+[A-Za-z|]*\.|param:|each\(|expr:', o):
